@@ -33,6 +33,12 @@ func c17CoercerKindsScenario(x *mc.X) *mc.Outcome {
 	}
 	in := inputs[kind][x.Choose(len(inputs[kind]), "input")]
 	field := x.Bool("as field")
+	// what the installed coercer returns: a marker value, or the zero value of the destination type (the node
+	// is then Required: presence is decided on the input, the coercer's result is simply what the destination holds)
+	zeroResult := x.Bool("coercer returns the zero value")
+	if zeroResult {
+		markers = []any{"", 0, 0.0, false, time.Time{}, []any{}}
+	}
 	calls := 0
 	var seen any
 	co := z.WithCoercer(func(d any) (any, error) { calls++; seen = d; return markers[kind], nil })
@@ -45,17 +51,41 @@ func c17CoercerKindsScenario(x *mc.X) *mc.Outcome {
 		var t reflect.Type
 		switch kind {
 		case 0:
-			s, t = z.String(opts...), reflect.TypeOf("")
+			q := z.String(opts...)
+			if zeroResult {
+				q.Required()
+			}
+			s, t = q, reflect.TypeOf("")
 		case 1:
-			s, t = z.Int(opts...), reflect.TypeOf(0)
+			q := z.Int(opts...)
+			if zeroResult {
+				q.Required()
+			}
+			s, t = q, reflect.TypeOf(0)
 		case 2:
-			s, t = z.Float64(opts...), reflect.TypeOf(0.0)
+			q := z.Float64(opts...)
+			if zeroResult {
+				q.Required()
+			}
+			s, t = q, reflect.TypeOf(0.0)
 		case 3:
-			s, t = z.Bool(opts...), reflect.TypeOf(false)
+			q := z.Bool(opts...)
+			if zeroResult {
+				q.Required()
+			}
+			s, t = q, reflect.TypeOf(false)
 		case 4:
-			s, t = z.Time(opts...), reflect.TypeOf(time.Time{})
+			q := z.Time(opts...)
+			if zeroResult {
+				q.Required()
+			}
+			s, t = q, reflect.TypeOf(time.Time{})
 		default:
-			s, t = z.Slice(z.String(), opts...), reflect.TypeOf([]string(nil))
+			q := z.Slice(z.String(), opts...)
+			if zeroResult {
+				q.Required()
+			}
+			s, t = q, reflect.TypeOf([]string(nil))
 		}
 		if withCoercer && how == 1 {
 			co(s)
@@ -104,10 +134,13 @@ func c17CoercerKindsScenario(x *mc.X) *mc.Outcome {
 	var want any = markers[kind]
 	if kind == 5 {
 		want = []string{"m1", "m2"}
+		if zeroResult {
+			want = []string{}
+		}
 	}
 	kinds := []string{"String", "Int", "Float64", "Bool", "Time", "Slice(String)"}
-	out := &mc.Outcome{Traces: 1, Nontrivial: true, Sig: fmt.Sprintf("coercer|%d|%d|%T|%v", kind, how, in, field)}
-	out.Sample = map[string]any{"kind": kinds[kind], "installed": how, "input": fmt.Sprintf("%T(%v)", in, in), "field": field, "coercer_calls": calls}
+	out := &mc.Outcome{Traces: 1, Nontrivial: true, Sig: fmt.Sprintf("coercer|%d|%d|%T|%v|%v", kind, how, in, field, zeroResult)}
+	out.Sample = map[string]any{"kind": kinds[kind], "zero_result": zeroResult, "installed": how, "input": fmt.Sprintf("%T(%v)", in, in), "field": field, "coercer_calls": calls}
 	ok := pmsg == "" && calls == 1 && reflect.DeepEqual(seen, in) && len(issues) == 0 && got.IsValid() && got.Kind() != reflect.Pointer && reflect.DeepEqual(got.Interface(), want)
 	if field && ok {
 		// the sibling without the option was coerced by the stock coercer from its native input
@@ -124,7 +157,7 @@ func c17CoercerKindsScenario(x *mc.X) *mc.Outcome {
 		}
 	}
 	if !ok {
-		x.Note("%s schema, WithCoercer installed %d (0 at construction, 1 applied afterwards, 2 applied to Ptr(schema)), input %T(%v), as field next to a plain sibling=%v", kinds[kind], how, in, in, field)
+		x.Note("%s schema (Required and the coercer returns the zero value: %v), WithCoercer installed %d (0 at construction, 1 applied afterwards, 2 applied to Ptr(schema)), input %T(%v), as field next to a plain sibling=%v", kinds[kind], zeroResult, how, in, in, field)
 		out.Viol = append(out.Viol, &mc.Violation{Key: fmt.Sprintf("C17:coercer-own-schema:%s", kinds[kind]), What: "the coercer installed with WithCoercer was not what coerced its own schema's present input (exactly once, raw input in, its result in the destination), or a sibling was affected", Expected: fmt.Sprintf("calls=1 seen=%v dest=%v no issues", in, want), Observed: fmt.Sprintf("panic=%q calls=%d seen=%v dest=%s issues=%v", pmsg, calls, seen, canonNoTypes(d.Elem()), issues)})
 	}
 	return out
